@@ -65,7 +65,9 @@ c.finish(
         "glyph-name-to-text (names.ToUnicode), names.IsValid, the four base encoding tables and the glyph names chosen by "
         "makeGlyphName are arbitrary functions in the theorems (hypotheses: chosen names are valid; \"\" and \"@\" are not "
         "valid names; \"@\" implies no text)",
-        "widths are compared with == (the model uses integers; NaN is outside the model)",
+        "widths and vertical metrics are compared with == (the model uses integers; NaN is outside the model); the Type 3 "
+        "scaling theorem is over the rationals, the float64 code agrees with it up to rounding (checked to 1e-9)",
+        "utf16_roundtrip is about Unicode scalar values; Go's []rune(text) conversion of invalid UTF-8 is outside the model",
         "the CID list given to encodeCompositeWidths is strictly increasing with CIDs <= 65535 (slices.Sorted(maps.Keys))",
         "characters outside a font's repertoire (shown as .notdef; for fonts encoded through a predefined CMap also glyphs "
         "outside the character collection) are outside the property: only count, width and writer/reader agreement are checked",
@@ -73,14 +75,16 @@ c.finish(
         "fromcmap_first_wins / fromcmap_inverse_refuted describe the table before the fix",
     ],
     trusted=[
-        "hand-written Gallina models coq/C14/{SimpleEnc,CidEnc,Widths,Encoding}.v of font/encoding/simpleenc, font/encoding/cidenc, "
+        "hand-written Gallina models coq/C14/{SimpleEnc,CidEnc,Widths,Encoding,VMetrics,Type3,Utf16}.v of font/encoding/simpleenc, font/encoding/cidenc, "
         "font/dict/metrics.go, graphics/extract/font-metrics.go, font/dict/encoding.go:SimpleTextMap, font/encoding/type1.go "
         "(AsPDFSimple/ExtractSimple/AsPDFType3/ExtractType3), tied by trace refinement / correspondence",
         "seehuhn.de/go/postscript/type1/names (glyph name <-> text, IsValid), golang.org/x/text NFC/NFD, seehuhn.de/go/sfnt (layout, subsetting), "
         "cmap.File.All / cmap.Predefined (the (code, CID) pairs are data for the model)",
     ],
     partial=[
-        "under a theorem: code allocation (simple, UTF-8, identity, NewFromCMap over an arbitrary CMap table), the width tables, "
+        "under a theorem: code allocation (simple, UTF-8, identity, NewFromCMap over an arbitrary CMap table), the width tables "
+        "(/Widths + MissingWidth from the encoder state, /W + /DW from an arbitrary CID->width map, /W2 + /DW2), Type 3 width scaling, "
+        "the UTF-16 text values of ToUnicode, "
         "the /Encoding + /Differences round trip and the ToUnicode-omission / reader-side text derivation through the dictionary "
         "actually written (text_derivable_dict); font programs, subsetting, ToUnicode CMap embedding (C13), CMap parsing and "
         "lookup (C13), the charcode codec (C12), PDF name syntax (C01) and extraction are exercised end to end on the "
